@@ -548,20 +548,26 @@ func (r *Renderer) renderCodeSpan(w util.BufWriter, source []byte, n ast.Node, e
 		} else {
 			_, _ = w.WriteString("<code>")
 		}
-		for c := n.FirstChild(); c != nil; c = c.NextSibling() {
-			segment := c.(*ast.Text).Segment
-			value := segment.Value(source)
-			if bytes.HasSuffix(value, []byte("\n")) {
-				r.Writer.RawWrite(w, value[:len(value)-1])
-				r.Writer.RawWrite(w, []byte(" "))
-			} else {
-				r.Writer.RawWrite(w, value)
-			}
-		}
+		r.renderCodeSpanContent(w, source, n)
 		return ast.WalkSkipChildren, nil
 	}
 	_, _ = w.WriteString("</code>")
 	return ast.WalkContinue, nil
+}
+
+// renderCodeSpanContent writes the text of a code span: a line ending inside
+// it reads as a space.
+func (r *Renderer) renderCodeSpanContent(w util.BufWriter, source []byte, n ast.Node) {
+	for c := n.FirstChild(); c != nil; c = c.NextSibling() {
+		segment := c.(*ast.Text).Segment
+		value := segment.Value(source)
+		if bytes.HasSuffix(value, []byte("\n")) {
+			r.Writer.RawWrite(w, value[:len(value)-1])
+			r.Writer.RawWrite(w, []byte(" "))
+		} else {
+			r.Writer.RawWrite(w, value)
+		}
+	}
 }
 
 // EmphasisAttributeFilter defines attribute names which emphasis elements can have.
@@ -731,6 +737,8 @@ func (r *Renderer) renderTexts(w util.BufWriter, source []byte, n ast.Node) {
 			} else {
 				_, _ = r.renderText(w, source, t, true)
 			}
+		} else if _, ok := c.(*ast.CodeSpan); ok {
+			r.renderCodeSpanContent(w, source, c)
 		} else if a, ok := c.(*ast.AutoLink); ok {
 			// the plain string content of an autolink is its label
 			_, _ = w.Write(util.EscapeHTML(a.Label(source)))
